@@ -29,6 +29,7 @@ type Case struct {
 	Blank  []bool   `json:"blank,omitempty"`  // ctx blank: which results are assigned to _
 	Via    string   `json:"via,omitempty"`    // h2s: eval-qual | eval-plain | symbols
 	How    string   `json:"how,omitempty"`    // h2s: call | callslice | iface | typed
+	BareEval bool   `json:"bareeval,omitempty"` // h2s: the host evaluates a statement without package clause (`func() {}()`) before it asks for the function
 	Assert bool     `json:"assert,omitempty"` // s2h: the script type-asserts interface results back to their dynamic type
 	// var
 	VT     *TypeD `json:"vt,omitempty"`
@@ -43,6 +44,7 @@ type Case struct {
 	Depth  int     `json:"depth,omitempty"`  // reenter: recursion depth through the host
 	Ks     []int64 `json:"ks,omitempty"`     // constants of the function body
 	Caller string  `json:"caller,omitempty"` // host | script: who makes the outermost call
+	AfterCancel bool `json:"aftercancel,omitempty"` // retain: an evaluation is cancelled (context deadline in `for {}`) between the moment the host got the function value and its calls
 	Feat   []string `json:"feat,omitempty"` // out-of-domain features switched on for this case (generator gates)
 }
 
@@ -704,6 +706,7 @@ var classes = []classT{
 		}
 		return false
 	}},
+	{"qualified-eval-after-bare-statement", func(c *Case) bool { return c.Dir == "h2s" && c.BareEval && c.Via == "eval-qual" }},
 	{"hostvar-nil-pointer", func(c *Case) bool {
 		return c.Dir == "var" && c.Access == "use" && (c.VT.Kind == KPtr || c.VT.Kind == KIface) && c.V0.Nil
 	}},
